@@ -243,7 +243,7 @@ def classify(gr, harnesses):
         for r in gr.json.get("verification_results", {}).get("results", []):
             byid[r["harness_id"]] = r
         for c in gr.json.get("cbmc", []):
-            stats[c["harness_id"]] = c.get("cbmc_stats", {})
+            stats[c["harness_id"]] = c.get("cbmc_stats") or {}
     for h in harnesses:
         fq = gr.names[h.name]
         r = byid.get(fq)
@@ -254,7 +254,7 @@ def classify(gr, harnesses):
             d["why"] = "no result in kani export (build error, timeout or crash)"
             continue
         d["time_s"] = r.get("duration_ms", 0) / 1000.0
-        st = stats.get(fq, {})
+        st = stats.get(fq) or {}
         d["solver_s"] = float(st.get("runtime_solver_s", 0.0) or 0.0)
         d["vccs"] = st.get("vccs_generated", 0)
         checks = r.get("checks", [])
@@ -347,6 +347,8 @@ def run_playback_tests(scratch, hfile, package, features, tests_src):
     # the harness module is included by #[path]; make a copy with the tests appended and re-point the include
     copy = os.path.join(scratch.gen, "playback_" + os.path.basename(hfile.path))
     src = open(hfile.path).read()
+    # relative include!()s of shared helper files must keep pointing into /verif/harness
+    src = src.replace('include!("../', 'include!("' + os.path.dirname(os.path.dirname(hfile.path)) + '/')
     open(copy, "w").write(src + "\n" + tests_src + "\n")
     target = os.path.join(scratch.repo, hfile.inject_file)
     s = open(target).read()
